@@ -142,6 +142,8 @@ def plane(tier: str, rng: random.Random) -> List[Tuple[str, Any, Any]]:
     for st in ("e\u0301", "\u00e9", "e\u0301e\u0301", "\U0001f600", "a\u200db", "\u1100\u1161", "\uac00", "n\u0303o", "\u00a0 "):
         for n in (0, 1, 2, 3, 4):
             out += [("pred", ("PMinLength", n), G.S(st)), ("pred", ("PMaxLength", n), G.S(st)), ("pred", ("PExactLength", n), G.S(st))]
+    for st in ("\ufeff name", "name \ufeff", "\ufeff", " \ufeff ", "\u200b x \u200b", "\ufeff\ufeff a", "\u2060 b"):
+        out += [("proc", ("Strip",), G.S(st)), ("pred", ("PNotBlank",), G.S(st))]
     for s in ["ß", "éA", "ǅ", "İ", "ﬁ", "σς", " é "]:
         for pr in (("Strip",), ("Upper",), ("Lower",)):
             out.append(("proc", pr, G.S(s)))
